@@ -90,6 +90,7 @@ const (
 	verifC16Panic
 	verifC16FinishIgnored
 	verifC16EmitThenError
+	verifC16LogNoEmit
 	verifC16NOutcomes
 )
 
@@ -125,6 +126,9 @@ func (s *verifC16State) Exchange(ctx context.Context, input arrow.RecordBatch, o
 		out.ClientLog(LogInfo, "hello")
 		return out.Emit(mk(1))
 	case verifC16NoEmit:
+		return nil
+	case verifC16LogNoEmit:
+		out.ClientLog(LogInfo, "hello")
 		return nil
 	case verifC16DoubleEmitIgnored:
 		_ = out.Emit(mk(1))
@@ -186,7 +190,7 @@ func verifC16CountCursors() (n int, onData int, last string) {
 //verif:use ipc tokens
 //verif:stub time.Now = verifFixedNow
 //verif:stub encoding/json.Marshal = verifJSONMarshal
-//verif:bound one turn through handleExchangeCall; handler outcome one of: emit, emit with 1..2 metadata pairs (keys as in verifH_C16_strip but not framework keys — a handler overwriting vgi_rpc.stream_state is a handler bug outside the claim), log+emit, no emit, second emit (error ignored / returned), error, panic, Finish on an exchange then emit, emit then error; request metadata 0..2 pairs with framework keys allowed; max_response_bytes off or ANY positive value against a 64-byte data batch; abstract IPC; ideal token algebra
+//verif:bound one turn through handleExchangeCall; handler outcome one of: emit, emit with 1..2 metadata pairs (keys as in verifH_C16_strip but not framework keys — a handler overwriting vgi_rpc.stream_state is a handler bug outside the claim), log+emit, no emit, a log but no data batch, second emit (error ignored / returned), error, panic, Finish on an exchange then emit, emit then error; request metadata 0..2 pairs with framework keys allowed; max_response_bytes off or ANY positive value against a 64-byte data batch; abstract IPC; ideal token algebra
 func verifH_C16_exchange_turn() {
 	verifResetIPC()
 	verifToks = nil
